@@ -24,7 +24,7 @@ PROTS = ['braces', 'braces-all', 'braces-almost-all', 'braces-after-macro']
 L2T = [dict(), dict(strict_latex_spaces=True)]
 NEIGHBOURS = ['a', '1', ' ', '\n', '.', '{', 'é', 'ø', ' ', '\\', '%', '́']
 REPS = ['a', 'B', '1', ' ', '\n', '.', '{', '}', 'é', 'ø', ' ', '\\', '%', '́', 'α', 'ñ']
-LIGATURES = ['--', '``', "''", '!`', '?`', '<<', '>>', ',,']
+LIGATURES = ['--', '``', "''", '!`', '?`']      # the ASCII ligature pairs of the default databases (excluded by the property)
 BOUNDS = {'quick': dict(N=3, pairs=False), 'thorough': dict(N=3, pairs=True)}
 
 _ALPHA = None
@@ -152,18 +152,40 @@ def _how(got, exp):
     return 'characters-changed'
 
 
+def _customised_history(kind):
+    """Runs in a forked child: one default converter is customised through its public latex_context attribute;
+    converters built afterwards must still do the documented round trip."""
+    from pylatexenc import latex2text as lt
+    acc = engine.Acc()
+    c1 = lt.LatexNodes2Text()
+    if kind == 'prepend-category':
+        c1.latex_context.add_context_category('mine', prepend=True, macros=[lt.MacroTextSpec('textbackslash', 'X'), lt.MacroTextSpec('S', 'Y')],
+                                              specials=[lt.SpecialsTextSpec('~', 'Z')])
+    else:
+        c1.latex_context.set_unknown_macro_spec(lt.MacroTextSpec('', 'U'))
+    c1.latex_to_text('a\\textbackslash b~c')
+    _OBJ.clear()
+    _LOG.clear()
+    for s in ['\\', 'a\\b', '~', 'a~b', '\u00a7', '\u20ac', '\u00a0', 'a\u00a0b', '\u00e9~\\', '{\\}']:
+        if admissible(s):
+            check(s, acc, 'ctxhist')
+    for v in acc.violations:
+        v['case']['customisation'] = kind
+    return acc
+
+
 def plan(tier):
     b = BOUNDS[tier]
     A = alphabet()
-    shards = [('frames', k) for k in range(32)] + [('reps', i) for i in range(len(REPS))]
+    shards = [('frames', k) for k in range(32)] + [('reps', i) for i in range(len(REPS))] + [('ctxhist', 0), ('ctxhist', 1)]
     if b['pairs']:
         shards += [('pairs', k) for k in range(128)]
     return dict(
         shards=shards, bounds=dict(b, invertible_alphabet=len(A), neighbours=[repr(x) for x in NEIGHBOURS], reps=[repr(x) for x in REPS]),
         rule=('invertible alphabet = %d characters (built-in table + printable ASCII + newline minus mc/data/c08_not_invertible.json); every '
-              'character c in the frames c.n, n.c, n.c.n for each of 12 neighbour representatives; all strings of length <= %d over 15 class '
+              'character c alone, doubled, and in the frames c.n, n.c, n.c.n for each of 12 neighbour representatives; all strings of length <= %d over 15 class '
               'representatives%s; strings containing an ASCII ligature pair are skipped; x 4 brace-protection schemes x 2 latex2text whitespace '
-              'policies.  non-trivial = strings of more than one character.' % (len(A), b['N'], '; every ordered pair of alphabet characters' if b['pairs'] else '')),
+              'policies; the same round trip by converters built after another default converter was customised through its latex_context attribute (prepended category / unknown-macro spec; one forked process each).  non-trivial = strings of more than one character.' % (len(A), b['N'], '; every ordered pair of alphabet characters' if b['pairs'] else '')),
         assumptions=['the committed list of non-invertible characters (computed structurally, reviewed) fixes the alphabet; it is never rewritten by the check'],
     )
 
@@ -171,6 +193,13 @@ def plan(tier):
 def run_shard(shard, tier, acc):
     b = BOUNDS[tier]
     A = alphabet()
+    if shard[0] == 'ctxhist':
+        a2 = engine.in_child(_customised_history, ['prepend-category', 'unknown-macro-spec'][shard[1]])
+        if a2 is None:
+            acc.violation(ID, 'ctxhist', dict(customisation=shard[1]), dict(kind='child-crashed'))
+        else:
+            acc.merge(a2)
+        return
     if shard[0] == 'frames':
         for c in A[shard[1]::32]:
             for n in NEIGHBOURS:
@@ -178,6 +207,8 @@ def run_shard(shard, tier, acc):
                     if admissible(s):
                         check(s, acc, 'frames')
             check(c, acc, 'frames')
+            if admissible(c + c):
+                check(c + c, acc, 'frames')       # the character next to itself (would-be ligatures such as ,, << >>)
             acc.sample(dict(char=c, frames='c.n n.c n.c.n for 12 neighbours'))
     elif shard[0] == 'reps':
         first = REPS[shard[1]]
@@ -200,6 +231,11 @@ def run_shard(shard, tier, acc):
 
 def replay(sub, case):
     acc = engine.Acc()
+    if sub == 'ctxhist':
+        a2 = engine.in_child(_customised_history, case['customisation'])
+        a2.violations = [v for v in a2.violations if v['case'].get('s') == case.get('s') and v['case'].get('protection') == case.get('protection')
+                         and v['case'].get('l2t') == case.get('l2t')]
+        return a2.violations
     if case.get('history') is not None:
         # fresh objects (fresh interpreter), the recorded earlier calls, then the case
         enc, l2t = objs(case['protection'], case['l2t'])
